@@ -94,6 +94,40 @@ Section P.
       apply spec_name_reject_iff in Hrej. apply Hrej. eauto.
   Qed.
 
+  (* reading (decoding) a name over the whole message: succeeds exactly when the spec's name_at
+     accepts a name of at most 255 octets, resumes where the spec says, and yields the text of
+     the spec's labels *)
+  Theorem read_is_name_at nk c : whole c ->
+    match name_at msg (pos c) with
+    | Some (r, true) =>
+      exists ls, spec_name msg (pos c) = SAccept ls r /\ read_name msg nk c = Ok (join_labels (map snd ls), c_set_pos c r)
+    | _ => exists e, read_name msg nk c = Err e
+    end.
+  Proof.
+    intro Hw. pose proof (whole_cwf c Hw) as Hc. pose proof (whole_vis c Hw) as Hv.
+    assert (Hfail : (forall t c', read_name msg nk c = Ok (t, c') -> False) -> exists e, read_name msg nk c = Err e).
+    { intro Hno. pose proof (read_name_defined msg nk c Hc) as D.
+      destruct (read_name msg nk c) as [[t c']| | | | |] eqn:E; cbn in D; try tauto; [|eauto]. exfalso. eapply Hno. reflexivity. }
+    unfold name_at. destruct (spec_name msg (pos c)) as [ls r|w] eqn:Es.
+    - pose proof Es as Es0. apply spec_name_accept_iff in Es. destruct Es as [Hex Hr].
+      destruct (forallb (fun l => label_ok (snd l)) ls) eqn:Ef.
+      + assert (Hok : Forall (fun l => label_ok (snd l) = true) ls) by (apply Forall_forall; rewrite forallb_forall in Ef; exact Ef).
+        destruct (wire_len (map snd ls) <=? 255) eqn:Ew.
+        * rewrite <- Hv in Hex. destruct (read_name_complete msg nk c ls Hc Hex Hok ltac:(lia)) as (c' & Er & R1 & R2 & R3).
+          rewrite Hv in R1. pose proof (resume_at_det msg _ _ R1 _ Hr) as Hpos.
+          exists ls. split; [reflexivity|]. rewrite Er. f_equal. f_equal.
+          destruct c as [l p o], c' as [l' p' o']. cbn in *. subst. reflexivity.
+        * apply Hfail. intros t c' E. destruct (read_name_sound msg nk c t c' Hc E) as (ls' & Hex' & _ & _ & Hlen & _).
+          rewrite Hv in Hex'. pose proof (expands_det' _ _ _ _ _ Hex _ _ _ Hex'). subst ls'. lia.
+      + apply Hfail. intros t c' E. destruct (read_name_sound msg nk c t c' Hc E) as (ls' & Hex' & Hall & _).
+        rewrite Hv in Hex'. pose proof (expands_det' _ _ _ _ _ Hex _ _ _ Hex'). subst ls'.
+        assert (forallb (fun l => label_ok (snd l)) ls = true) by (apply forallb_forall; rewrite Forall_forall in Hall; exact Hall).
+        congruence.
+    - apply Hfail. intros t c' E. destruct (read_name_sound msg nk c t c' Hc E) as (ls' & Hex' & _). rewrite Hv in Hex'.
+      assert (Hrej : exists w', spec_name msg (pos c) = SReject w') by eauto.
+      apply spec_name_reject_iff in Hrej. apply Hrej. eauto.
+  Qed.
+
   (* big-endian fields: the spec's [be] is the cursor's checked read *)
   Lemma c_be_is_be c n : whole c -> 0 < n ->
     match be msg (pos c) n with
@@ -164,5 +198,89 @@ Section P.
       rewrite H4, set_pos_idem. cbn [a_type_off a_type a_class a_ttl a_rdlen a_start a_end a_data_ok pos c_set_pos].
       replace (r + 8 + 2) with (r + 10) by lia. repeat split; reflexivity.
     - destruct Hs as [e Hs]. rewrite Hs. cbn [bind]. eauto.
+  Qed.
+
+  (* the fixed part of a record header behind a name that ends at r *)
+  Lemma raw_marker_is_be c p s r : whole c ->
+    match be msg r 2, be msg (r + 2) 2, be msg (r + 4) 4, be msg (r + 8) 2 with
+    | Some t, Some cl, Some ttl, Some rdl =>
+      m_raw_marker msg p s (c_set_pos c r) = (c_set_pos c (r + 10), Ok (mkMarker p r t cl ttl rdl s))
+    | _, _, _, _ => exists c' e, m_raw_marker msg p s (c_set_pos c r) = (c', Err e)
+    end.
+  Proof.
+    intro Hw. unfold m_raw_marker, mbind, mret, lift, c_u16, c_u32.
+    pose proof (c_be_is_be (c_set_pos c r) 2 (whole_set_pos c r Hw) ltac:(lia)) as H1. cbn [pos c_set_pos] in H1.
+    destruct (be msg r 2) as [t|]; [|destruct H1 as [e H1]; rewrite H1; eauto].
+    rewrite H1, set_pos_idem.
+    pose proof (c_be_is_be (c_set_pos c (r + 2)) 2 (whole_set_pos c _ Hw) ltac:(lia)) as H2. cbn [pos c_set_pos] in H2.
+    destruct (be msg (r + 2) 2) as [cl|]; [|destruct H2 as [e H2]; rewrite H2; eauto].
+    rewrite H2, set_pos_idem.
+    pose proof (c_be_is_be (c_set_pos c (r + 2 + 2)) 4 (whole_set_pos c _ Hw) ltac:(lia)) as H3. cbn [pos c_set_pos] in H3.
+    replace (r + 2 + 2) with (r + 4) in * by lia.
+    destruct (be msg (r + 4) 4) as [ttl|]; [|destruct H3 as [e H3]; rewrite H3; eauto].
+    rewrite H3, set_pos_idem.
+    pose proof (c_be_is_be (c_set_pos c (r + 4 + 4)) 2 (whole_set_pos c _ Hw) ltac:(lia)) as H4. cbn [pos c_set_pos] in H4.
+    replace (r + 4 + 4) with (r + 8) in * by lia.
+    destruct (be msg (r + 8) 2) as [rdl|]; [|destruct H4 as [e H4]; rewrite H4; eauto].
+    rewrite H4, set_pos_idem. cbn [pos c_set_pos]. replace (r + 8 + 2) with (r + 10) by lia. reflexivity.
+  Qed.
+
+  (* the OWNED flavours: the same items, plus the decoded text of the name; they fail exactly when
+     the borrowed flavour fails or the name does not fit 255 octets *)
+  Theorem question_is_question_at c : whole c ->
+    match question_at msg (pos c) with
+    | Some it =>
+      if a_fits255 it then
+        exists ls r, spec_name msg (pos c) = SAccept ls r /\
+          m_question msg c = (c_set_pos c (a_end it), Ok (OQuestion (join_labels (map snd ls)) (a_type it) (a_class it)))
+      else exists c' e, m_question msg c = (c', Err e)
+    | None => exists c' e, m_question msg c = (c', Err e)
+    end.
+  Proof.
+    intro Hw. unfold question_at, m_question, mbind, mret, lift, c_u16.
+    pose proof (read_is_name_at Inline c Hw) as Hs. destruct (name_at msg (pos c)) as [[r fits]|].
+    - destruct fits.
+      + destruct Hs as (ls & Es & Hs). rewrite Hs. cbn [bind].
+        pose proof (c_be_is_be (c_set_pos c r) 2 (whole_set_pos c r Hw) ltac:(lia)) as H1. cbn [pos c_set_pos] in H1.
+        destruct (be msg r 2) as [t|]; [|destruct H1 as [e H1]; rewrite H1; eauto].
+        rewrite H1, set_pos_idem.
+        pose proof (c_be_is_be (c_set_pos c (r + 2)) 2 (whole_set_pos c _ Hw) ltac:(lia)) as H2. cbn [pos c_set_pos] in H2.
+        destruct (be msg (r + 2) 2) as [cl|]; [|destruct H2 as [e H2]; rewrite H2; eauto].
+        rewrite H2, set_pos_idem. cbn [a_fits255 a_end a_type a_class]. exists ls, r. split; [exact Es|].
+        replace (r + 2 + 2) with (r + 4) by lia. reflexivity.
+      + destruct Hs as [e Hs]. rewrite Hs. cbn [bind].
+        destruct (be msg r 2); [|eauto]. destruct (be msg (r + 2) 2); [|eauto]. cbn [a_fits255]. eauto.
+    - destruct Hs as [e Hs]. rewrite Hs. cbn [bind]. eauto.
+  Qed.
+
+  Theorem header_n_is_record_at nk c p s : whole c ->
+    match record_at msg (pos c) with
+    | Some it =>
+      if a_fits255 it then
+        exists ls r, spec_name msg (pos c) = SAccept ls r /\
+          (do* n <- lift (read_name msg nk); do* m <- m_raw_marker msg p s; mret (OHeaderN n m)) c =
+          (c_set_pos c (a_type_off it + 10),
+           Ok (OHeaderN (join_labels (map snd ls)) (mkMarker p (a_type_off it) (a_type it) (a_class it) (a_ttl it) (a_rdlen it) s)))
+      else exists c' e, (do* n <- lift (read_name msg nk); do* m <- m_raw_marker msg p s; mret (OHeaderN n m)) c = (c', Err e)
+    | None => exists c' e, (do* n <- lift (read_name msg nk); do* m <- m_raw_marker msg p s; mret (OHeaderN n m)) c = (c', Err e)
+    end.
+  Proof.
+    intro Hw. unfold record_at.
+    pose proof (read_is_name_at nk c Hw) as Hs. destruct (name_at msg (pos c)) as [[r fits]|].
+    - pose proof (raw_marker_is_be c p s r Hw) as Hm.
+      destruct fits.
+      + destruct Hs as (ls & Es & Hs).
+        destruct (be msg r 2) as [t|]; [|destruct Hm as (c' & e & Hm); unfold mbind, mret, lift; rewrite Hs; cbn [bind]; rewrite Hm; eauto].
+        destruct (be msg (r + 2) 2) as [cl|]; [|destruct Hm as (c' & e & Hm); unfold mbind, mret, lift; rewrite Hs; cbn [bind]; rewrite Hm; eauto].
+        destruct (be msg (r + 4) 4) as [ttl|]; [|destruct Hm as (c' & e & Hm); unfold mbind, mret, lift; rewrite Hs; cbn [bind]; rewrite Hm; eauto].
+        destruct (be msg (r + 8) 2) as [rdl|]; [|destruct Hm as (c' & e & Hm); unfold mbind, mret, lift; rewrite Hs; cbn [bind]; rewrite Hm; eauto].
+        cbn [a_fits255 a_type_off a_type a_class a_ttl a_rdlen]. exists ls, r. split; [exact Es|].
+        unfold mbind, mret, lift. rewrite Hs. cbn [bind]. rewrite Hm. reflexivity.
+      + destruct Hs as [e Hs].
+        assert (Hf : exists c' e, (do* n <- lift (read_name msg nk); do* m <- m_raw_marker msg p s; mret (OHeaderN n m)) c = (c', Err e))
+          by (unfold mbind, mret, lift; rewrite Hs; cbn [bind]; eauto).
+        destruct (be msg r 2); [|exact Hf]. destruct (be msg (r + 2) 2); [|exact Hf]. destruct (be msg (r + 4) 4); [|exact Hf].
+        destruct (be msg (r + 8) 2); [|exact Hf]. cbn [a_fits255]. exact Hf.
+    - destruct Hs as [e Hs]. unfold mbind, mret, lift. rewrite Hs. cbn [bind]. eauto.
   Qed.
 End P.
